@@ -449,7 +449,9 @@ def main(tier):
     for role, vs in sorted(by_role.items()):
         got = None
         for i, v in enumerate(vs[:10]):
-            if 'order' in v and 'files' not in v:
+            if v.get('main'):
+                pass                     # main-wiring violations were replayed by mainwire.add_to
+            elif 'order' in v and 'files' not in v:
                 confirm_difforder(binary, v, i)
             else:
                 confirm(binary, v, i)
